@@ -155,14 +155,15 @@ func cmdDrive(args []string) {
 		os.Exit(2)
 	}
 	defer os.RemoveAll(tmp)
+	exitWith := func(code int) { os.RemoveAll(tmp); os.Exit(code) } // os.Exit skips deferred calls
 	if needRace && *raceBin == "" {
 		fmt.Fprintln(os.Stderr, "need -race-bin")
-		os.Exit(2)
+		exitWith(2)
 	}
 	known, err := loadKnown(filepath.Join(*verifDir, "known_findings.txt"))
 	if err != nil {
 		fmt.Fprintln(os.Stderr, err)
-		os.Exit(2)
+		exitWith(2)
 	}
 
 	type job struct {
@@ -181,7 +182,7 @@ func cmdDrive(args []string) {
 		if b.deep {
 			if *deepBin == "" {
 				fmt.Fprintln(os.Stderr, "need -deep-bin")
-				os.Exit(2)
+				exitWith(2)
 			}
 			bin = *deepBin
 		}
@@ -355,12 +356,12 @@ func cmdDrive(args []string) {
 		for _, t := range trouble {
 			fmt.Fprintln(os.Stderr, "TROUBLE:", t)
 		}
-		os.Exit(2)
+		exitWith(2)
 	}
 	for _, t := range trouble {
 		fmt.Fprintln(os.Stderr, "TROUBLE:", t)
 	}
-	os.Exit(exit)
+	exitWith(exit)
 }
 
 func writeEvidence(verifDir, prop, tier string, seed uint64, plan tierPlan, st *Stats, wall float64, vio int) error {
